@@ -119,6 +119,13 @@ def replay_mix(case):
     stoich = {x["txt"]: x["coef"] for x in ent}
     bad = []
     try:
+        # history: an earlier call with the caller's own substance factory (same keys, other masses)
+        # must not influence a later call with the default factory
+        from chempy import Substance as _S
+        mass_fractions(stoich, substance_factory=lambda k: _S(k, data={"mass": 1.0 + len(k)}))
+    except Exception:
+        pass
+    try:
         r = mass_fractions(stoich)
     except Exception as ex:
         return [("mass_fractions", type(ex).__name__, "fractions")]
